@@ -2,7 +2,9 @@ package interceptor
 
 import (
 	"errors"
+	"reflect"
 
+	"github.com/keilerkonzept/visit"
 	commonpb "go.temporal.io/api/common/v1"
 	enumspb "go.temporal.io/api/enums/v1"
 	historypb "go.temporal.io/api/history/v1"
@@ -180,5 +182,68 @@ func verifHarness_C17_blobFlow() {
 	}
 	if first == 0 && !visitFails && visitMatched && ser.serFail {
 		verifAssert(err != nil, "blob-flow:encode-error-is-reported")
+	}
+}
+
+// verifHarness_C17_blobAssign: one level up — visitDataBlobs, which writes the outcome of the blob flow
+// back into the message. visit.Assign is a recording stub (the reflective write itself is not
+// modelled); what the message holds afterwards is the assigned value if one was assigned, otherwise
+// what it held before (for a repeated field: the caller's slice, which translateDataBlobs fills in place).
+var c17Assigned []any
+
+func verifStub_visitAssign(vwp visit.ValueWithParent, v reflect.Value) error {
+	c17Assigned = append(c17Assigned, v.Interface())
+	return nil
+}
+
+func verifHarness_C17_blobAssign() {
+	ser := &c17cSer{}
+	ser122 := &c17cSer122{events: 1, badEvents: 1}
+	serializer = ser
+	gogoSerializer = ser122
+	first := verifChoose("decode", 2) // 0 decodes, 1 invalid UTF-8 (repairable)
+	ser.desOutcomes = []int{first, 0}
+	visitMatched := verifChoose("visit-matched", 2) == 1
+	visitor := func(l log.Logger, obj any, m stringMatcher) (bool, error) { return visitMatched, nil }
+	match := func(name string) (string, bool) { return name, false }
+	in := &commonpb.DataBlob{EncodingType: enumspb.ENCODING_TYPE_PROTO3, Data: []byte("wire")}
+	c17Assigned = nil
+	var held *commonpb.DataBlob
+	var matched bool
+	var err error
+	if verifChoose("field-kind", 2) == 0 {
+		verifReach("single-blob-field")
+		matched, err = visitDataBlobs(log.NewNoopLogger(), visit.ValueWithParent{Value: reflect.ValueOf(in)}, match, visitor)
+		held = in
+		if len(c17Assigned) == 1 {
+			held, _ = c17Assigned[0].(*commonpb.DataBlob)
+		}
+	} else {
+		verifReach("repeated-blob-field")
+		sl := []*commonpb.DataBlob{in}
+		matched, err = visitDataBlobs(log.NewNoopLogger(), visit.ValueWithParent{Value: reflect.ValueOf(sl)}, match, visitor)
+		held = sl[0]
+		if len(c17Assigned) == 1 {
+			if as, ok := c17Assigned[0].([]*commonpb.DataBlob); ok && len(as) == 1 {
+				held = as[0]
+			} else {
+				held = nil
+			}
+		}
+	}
+	verifAssert(len(c17Assigned) <= 1, "blob-assign:at-most-one-write-back")
+	verifAssert(err == nil, "blob-assign:repairable-or-valid-blob-is-not-an-error")
+	if err != nil {
+		return
+	}
+	verifAssert(matched == visitMatched, "blob-assign:match-reported-as-the-visitor-said")
+	if first == 1 {
+		verifReach("repaired-blob-written-back")
+		verifAssert(held != nil && held == ser.out && held != in, "blob-assign:message-holds-the-repaired-blob(not-the-undecodable-original)")
+	} else if visitMatched {
+		verifReach("translated-blob-written-back")
+		verifAssert(held != nil && held == ser.out && held != in, "blob-assign:message-holds-the-translated-blob")
+	} else {
+		verifAssert(held == in, "blob-assign:untouched-blob-stays")
 	}
 }
